@@ -1,0 +1,212 @@
+//! Verification hooks (cargo feature `verif-hooks`, off by default).
+//!
+//! Add-only: re-exports of crate-private pure functions and small read-only accessors so that an
+//! external harness can run the real code on the same inputs as a formal model, plus a yield-point
+//! callback used to force thread schedules. With the feature off this module does not exist.
+
+use std::collections::BTreeMap;
+use std::num::NonZeroU64;
+use std::path::Path;
+use std::sync::RwLock;
+
+use crate::index::IndexStateItem;
+use crate::types::{BlobHash, KeyBytes, WalOp, WalOpRaw};
+
+// ---------------------------------------------------------------- codecs
+
+pub fn serialize_wal_op_raw(op: &WalOpRaw) -> Vec<u8> {
+    crate::serialization::serialize_wal_op_raw(op).expect("serialize_wal_op_raw is infallible")
+}
+
+/// Ok(op) or Err(class) with class in {"eof","insufficient","badtag"}.
+pub fn deserialize_wal_op_raw(bytes: &[u8]) -> Result<WalOpRaw, &'static str> {
+    crate::serialization::deserialize_wal_op_raw(bytes).map_err(ser_err_class)
+}
+
+pub fn serialize_index_state<K: KeyBytes>(
+    map: &BTreeMap<K, IndexStateItem>,
+    last_persisted_version: Option<NonZeroU64>,
+) -> Vec<u8> {
+    crate::serialization::serialize_index_state(map, last_persisted_version)
+}
+
+pub type DecodedIndex = (BTreeMap<Vec<u8>, IndexStateItem>, Option<NonZeroU64>);
+
+pub fn deserialize_index_state(bytes: &[u8]) -> Result<DecodedIndex, &'static str> {
+    crate::serialization::deserialize_index_state(bytes).map_err(ser_err_class)
+}
+
+fn ser_err_class(e: crate::serialization::SerializationError) -> &'static str {
+    use crate::serialization::SerializationError as E;
+    match e {
+        E::UnexpectedEof { .. } => "eof",
+        E::InsufficientData { .. } => "insufficient",
+        E::InvalidVariantTag { .. } => "badtag",
+    }
+}
+
+// ---------------------------------------------------------------- WAL framing
+
+/// Result of reading one segment file with the real `SegmentReader`.
+pub struct SegmentRead {
+    pub entries: Vec<(u64, Vec<u8>)>,
+    /// None = clean end; Some(class) with class in {"shortPayload","checksum","other"}.
+    pub error: Option<&'static str>,
+}
+
+pub fn read_segment_file(db_root: &Path, segment_id: u64) -> SegmentRead {
+    let storage =
+        crate::wal::SegmentStorage::new(crate::paths::DbPaths::new(db_root.to_path_buf()));
+    let mut out = SegmentRead { entries: Vec::new(), error: None };
+    let reader = match storage.open_reader(segment_id) {
+        Ok(r) => r,
+        Err(_) => {
+            out.error = Some("other");
+            return out;
+        }
+    };
+    for entry in reader {
+        match entry {
+            Ok(e) => out.entries.push((e.version.get(), e.op_data)),
+            Err(e) => {
+                out.error = Some(match e {
+                    crate::wal::WalError::ReplayChecksumMismatch { .. } => "checksum",
+                    crate::wal::WalError::ReplayIo {
+                        step: crate::wal::WalReplayIoStep::ReadOpData,
+                        ref source,
+                        ..
+                    } if source.kind() == std::io::ErrorKind::UnexpectedEof => "shortPayload",
+                    _ => "other",
+                });
+                break;
+            }
+        }
+    }
+    out
+}
+
+/// Append entries to segment `segment_id` under `db_root` with the real `SegmentWriter`
+/// (`open_writer` + `write_entry` each, then `seal` or `close`).
+pub fn write_segment_entries(
+    db_root: &Path,
+    segment_id: u64,
+    entries: &[(u64, Vec<u8>)],
+    seal: bool,
+) -> Result<(), String> {
+    let storage =
+        crate::wal::SegmentStorage::new(crate::paths::DbPaths::new(db_root.to_path_buf()));
+    let mut w = storage.open_writer(segment_id).map_err(|e| e.to_string())?;
+    for (ver, data) in entries {
+        let ver = NonZeroU64::new(*ver).ok_or_else(|| "zero version".to_string())?;
+        w.write_entry(ver, crate::calculate_blob_hash(data), data).map_err(|e| e.to_string())?;
+    }
+    if seal { w.seal() } else { w.close() }.map_err(|e| e.to_string())
+}
+
+/// `WalManager::segment_id_for_op_version` for a fresh manager with the given `num_ops_per_wal`.
+pub fn segment_id_for_op_version(db_root: &Path, num_ops_per_wal: NonZeroU64, version: u64) -> u64 {
+    let m = crate::wal::WalManager::new(
+        crate::paths::DbPaths::new(db_root.to_path_buf()),
+        num_ops_per_wal,
+    )
+    .expect("WalManager::new");
+    m.segment_id_for_op_version(version)
+}
+
+// ---------------------------------------------------------------- index state machine
+
+/// The in-memory index state machine, driven directly (no files).
+pub struct IndexMachine<K>(crate::index::IndexState<K>);
+
+pub struct IndexObservation<K> {
+    pub entries: Vec<(K, BlobHash, u64)>,
+    pub ref_counts: Vec<(BlobHash, u32)>,
+    pub unique_blobs: u64,
+    pub total_bytes: u64,
+}
+
+impl<K: Clone + Ord> IndexMachine<K> {
+    #[allow(clippy::new_without_default)]
+    pub fn new() -> Self {
+        Self(crate::index::IndexState::new())
+    }
+
+    /// Ok(unreferenced hashes) or Err(class) with class in {"decrementZero","hashNotFound"}.
+    /// Panics of the real code (assertions, arithmetic) propagate to the caller.
+    pub fn apply(&mut self, op: &WalOp<K>) -> Result<Vec<BlobHash>, &'static str> {
+        self.0.apply_logical_op(op).map_err(|e| match e {
+            crate::index::IndexStateError::DecrementZeroRefCount { .. } => "decrementZero",
+            crate::index::IndexStateError::HashNotFoundForDecrement { .. } => "hashNotFound",
+        })
+    }
+
+    pub fn recompute_stats(&mut self, index_file_size: u64) {
+        self.0.recompute_stats(index_file_size);
+    }
+
+    pub fn observe(&self) -> IndexObservation<K> {
+        let mut ref_counts: Vec<_> = self.0.hash_to_ref_count.iter().map(|(h, c)| (*h, *c)).collect();
+        ref_counts.sort();
+        IndexObservation {
+            entries: self
+                .0
+                .key_to_hash
+                .iter()
+                .map(|(k, i)| (k.clone(), i.blob_hash, i.blob_size))
+                .collect(),
+            ref_counts,
+            unique_blobs: self.0.stats.cas.unique_blobs,
+            total_bytes: self.0.stats.cas.total_bytes,
+        }
+    }
+}
+
+// ---------------------------------------------------------------- accessors on a live handle
+
+impl<K> crate::CasInner<K>
+where
+    K: Clone + Ord,
+{
+    /// Snapshot of `pending_intents` (key → hash), sorted by key.
+    pub fn verif_intents(&self) -> Vec<(K, BlobHash)> {
+        let g = self.index.pending_intents.lock();
+        let mut v: Vec<_> = g.iter().map(|(k, h)| (k.clone(), *h)).collect();
+        v.sort_by(|a, b| a.0.cmp(&b.0));
+        v
+    }
+
+    pub fn verif_next_op_version(&self) -> u64 {
+        self.index.wal.lock().get_next_op_version().get()
+    }
+
+    pub fn verif_last_persisted_version(&self) -> u64 {
+        self.index.state.read().last_persisted_version.map_or(0, |v| v.get())
+    }
+
+    /// bit 0: `pending_intents` locked, bit 1: `state` locked (shared or exclusive),
+    /// bit 2: `wal` locked.
+    pub fn verif_lock_mask(&self) -> u8 {
+        (self.index.pending_intents.is_locked() as u8)
+            | ((self.index.state.is_locked() as u8) << 1)
+            | ((self.index.wal.is_locked() as u8) << 2)
+    }
+}
+
+// ---------------------------------------------------------------- yield points
+
+type PointFn = dyn Fn(&'static str) + Send + Sync;
+
+static POINT: RwLock<Option<Box<PointFn>>> = RwLock::new(None);
+
+/// Install (or clear) the global yield-point callback.
+pub fn set_point_callback(f: Option<Box<PointFn>>) {
+    *POINT.write().unwrap() = f;
+}
+
+/// Called by the library at the yield points; a no-op unless a callback is installed.
+#[inline]
+pub fn point(id: &'static str) {
+    if let Some(f) = POINT.read().unwrap().as_ref() {
+        f(id);
+    }
+}
